@@ -1508,6 +1508,9 @@ func (w *zzvKWorld) buildTrace() *zzvKTraceResult {
 		if x.f.Type == protocol.FrameStreamClose || x.f.Type == protocol.FrameStreamReset || x.f.Type == protocol.FrameUDPClose || x.f.Type == protocol.FrameICMPClose {
 			if tu := bySid[zzvKSidKey{x.f.Link, x.f.StreamID}]; tu != nil {
 				tu.closeSeen = true
+				if hop, dir, ok := hopOf(x.f); ok && dir == "fwd" && hop == w.nt+1 {
+					tu.events = append(tu.events, zzvKEv{ord, map[string]any{"ev": "Close"}})
+				}
 			}
 		}
 		if d.Class == "other" {
